@@ -256,16 +256,70 @@ def _ap_map(d): return d.map(_inc)
 def _ap_id(d): return d
 
 
+def cycle_family(ld, r, count):
+    """endless pipelines (cycle): position access far beyond one round, partial iteration and partial key iteration deliver the
+    same under the profiling wrapper (F21: the wrapper had no `ordered` flag, so ProfilingDataset(ds.cycle())[i] raised)"""
+    import itertools
+    fails = []
+    g = gen_a.Gen(r, ld, err_rate=0.1, malformed=0.0)
+    n = 0
+    with warnings.catch_warnings():
+        warnings.simplefilter('ignore')
+        while n < count:
+            node, obj = g.grow(r.choice([1, 2, 3]))
+            if obj is None or 'cycle' in set(node.ops()):
+                continue
+            # cycling a pipeline that yields nothing spins forever (with or without the wrapper): only pipelines with a first example
+            first = gen_a.obs_call(lambda: next(iter(obj), _NOTHING))
+            if first[0] == 'ok' and first[1] is _NOTHING:
+                continue
+            n += 1
+            above = r.choice(['plain', 'map', 'batch'])
+
+            def build(o):
+                c = o.cycle()
+                return c if above == 'plain' else c.map(_ident20) if above == 'map' else c.batch(2)
+            try:
+                plain = build(obj)
+            except Exception:
+                continue
+            k = r.randint(0, 9)
+
+            def observe(d):
+                out = []
+                out.append(gen_a.obs_call(lambda: [repr(x) for x in itertools.islice(iter(d), k)]))
+                for i in (0, 1, k, 2 * k + 1, 17):
+                    out.append(gen_a.obs_call(lambda: repr(d[i])))
+                out.append(gen_a.obs_call(lambda: [repr(x) for x in itertools.islice(iter(d.items()), k)]))
+                return [(o[0], o[1]) if o[0] == 'ok' else ('err', 'IndexError' if o[1][0] == 'EIndex' else ('user', o[1]) if o[1][1] else 'some error') for o in out]
+            a = observe(plain)
+            try:
+                b = observe(ld.core.ProfilingDataset(build(obj)))
+            except Exception as e:
+                b = ('ctor', type(e).__name__)
+            if a != b:
+                fails.append(f'profiling changes an endless pipeline: {gen_a.coq_prog(node)[:250]}.cycle() ({above}), first {k} examples / positions 0, 1, {k}, {2 * k + 1}, 17 / first {k} items: {a} vs wrapped {b}')
+    return fails
+
+
+_NOTHING = object()
+
+
+def _ident20(x):
+    return x
+
+
 def run(tier):
     ld = common.import_impl()
     big = tier != 'quick'
     res = model_b.run_b('C20', tier, want_prof=True)
     r = common.rng_for('C20-direct')
-    for msg in transparency(ld, r, 1500 if big else 250) + raising(ld, r, 200 if big else 30) + freeze_family(ld, r, 1500 if big else 200) + mutating_family(ld, r, 600 if big else 80):
+    for msg in transparency(ld, r, 1500 if big else 250) + raising(ld, r, 200 if big else 30) + freeze_family(ld, r, 1500 if big else 200) + mutating_family(ld, r, 600 if big else 80) + cycle_family(ld, r, 800 if big else 120):
         res['failures'].append(dict(kind='program', summary=msg[:900], config={}))
     res['coverage']['transparency_programs'] = 1500 if big else 250
     res['coverage']['raising_cases'] = 200 if big else 30
     res['coverage']['freeze_family_pipelines'] = 1500 if big else 200
+    res['coverage']['cycle_family_pipelines'] = 800 if big else 120
     res['coverage']['evaluations'] += (1500 if big else 250) + (200 if big else 30)
     return res
 
